@@ -1,7 +1,7 @@
 (* Totality of emission: a referentially closed module never hits an "index not set" / dead-arena
    panic in the section emitters.
    Part 1: [closed] (module-level referential integrity) implies [emit_closed] of Proofs/IndexMaps.v.
-   Part 2: gc preserves [closed] (up to one corner, see [gc_closed_refuted]).
+   Part 2: gc_sweep preserves [closed] (up to one corner, see [gc_closed_refuted]).
    Part 3: a successfully parsed module is [closed].
    Part 4: corollaries for emitM. *)
 From Coq Require Import List NArith ZArith Bool Arith Lia Permutation Sorted.
@@ -234,7 +234,7 @@ Proof.
 Qed.
 
 (* ====================================================================================== *)
-(* Part 2: gc preserves closed                                                              *)
+(* Part 2: gc_sweep preserves closed                                                              *)
 (* ====================================================================================== *)
 
 (* ---------------------------------------------------------------- the worklist result is closed under
@@ -400,14 +400,14 @@ Lemma types_delete_unused_keep s s' keep : types_delete_unused s keep = Ok s' ->
   forall id t, aset_index s id = Some t -> existsb (N.eqb (N.of_nat id)) keep = true -> aset_index s' id = Some t.
 Proof. intros H. exact (ty_fold_keep keep _ _ _ H). Qed.
 
-(* ---------------------------------------------------------------- the shape of a successful gc *)
+(* ---------------------------------------------------------------- the shape of a successful gc_sweep *)
 Definition imp_used (u : list ent) (i : mimport) : bool :=
   match im_kind i with
   | MI_Func f => mem_ent (S_func, f) u | MI_Table t => mem_ent (S_table, t) u
   | MI_Global g => mem_ent (S_global, g) u | MI_Mem mm => mem_ent (S_memory, mm) u
   end.
 
-Lemma gc_inv' m m' : gc m = Ok m' -> exists u ia ta ga ma da ea tya fa,
+Lemma gc_inv' m m' : gc_sweep m = Ok m' -> exists u ia ta ga ma da ea tya fa,
   used m = Ok u /\
   delete_unused (m_imports m) (map fst (filter (fun p => imp_used u (snd p)) (aiter (m_imports m)))) = Ok ia /\
   delete_unused (m_tables m) (used_of u S_table) = Ok ta /\
@@ -419,7 +419,7 @@ Lemma gc_inv' m m' : gc m = Ok m' -> exists u ia ta ga ma da ea tya fa,
   delete_unused (m_funcs m) (used_of u S_func) = Ok fa /\
   m' = set_funcs (set_types (set_elements (set_data (set_memories (set_globals (set_tables (set_imports m ia) ta) ga) ma) da) ea) tya) fa.
 Proof.
-  intros H. unfold gc in H. destruct (used m) as [u| |] eqn:Hu; cbn [rbind] in H; try discriminate H.
+  intros H. unfold gc_sweep in H. destruct (used m) as [u| |] eqn:Hu; cbn [rbind] in H; try discriminate H.
   repeat match type of H with
          | rbind ?r _ = Ok _ => let E := fresh "E" in destruct r eqn:E; cbn [rbind] in H; [|discriminate H|discriminate H]
          end.
@@ -441,7 +441,7 @@ Record gc_rel (m m' : wir) (u : list ent) : Prop := {
 Lemma aget_fun {A} (a : tarena A) id v w : aget a id = Some v -> aget a id = Some w -> v = w.
 Proof. congruence. Qed.
 
-Theorem gc_shape m m' : gc m = Ok m' -> exists u, used m = Ok u /\ gc_rel m m' u.
+Theorem gc_shape m m' : gc_sweep m = Ok m' -> exists u, used m = Ok u /\ gc_rel m m' u.
 Proof.
   intros H. destruct (gc_inv' m m' H) as (u & ia & ta & ga & ma & da & ea & tya & fa & Hu & Ei & Et & Eg & Em & Ed & Ee & Ety & Ef & ->).
   exists u. split; [exact Hu|]. constructor; wcbn.
@@ -605,14 +605,14 @@ End GcClosed.
 
 (* GC preserves closedness of every module whose active segments have no [ref.func] offset.
    No premise about function bodies is needed. *)
-Theorem gc_closed_partial m m' : closed m -> no_func_offsets m -> gc m = Ok m' -> closed m'.
+Theorem gc_closed_partial m m' : closed m -> no_func_offsets m -> gc_sweep m = Ok m' -> closed m'.
 Proof.
   intros C NF H. destruct (gc_shape m m' H) as [u [Hu R]].
   destruct (used_closed' m u Hu) as [rs [Hr [Hrs K]]].
   eapply gc_closed_core; eauto.
 Qed.
 
-Lemma gc_no_func_offsets m m' : no_func_offsets m -> gc m = Ok m' -> no_func_offsets m'.
+Lemma gc_no_func_offsets m m' : no_func_offsets m -> gc_sweep m = Ok m' -> no_func_offsets m'.
 Proof.
   intros [NFe NFd] H. destruct (gc_shape m m' H) as [u [Hu R]]. split.
   - intros id e t f Hg. apply (gr_elements _ _ _ R) in Hg. destruct Hg as [Hg _]. eapply NFe; eauto.
@@ -621,7 +621,7 @@ Qed.
 
 (* ---------------------------------------------------------------- the corner is real (in the model):
    an imported function mentioned only by the [ref.func] offset of an active data segment.
-   The module is closed and emits; gc deletes the function (and its import) but keeps the segment;
+   The module is closed and emits; gc_sweep deletes the function (and its import) but keeps the segment;
    the result is not closed and emitting it panics. *)
 Definition wit_ty : mtype := {| ty_params := []; ty_results := []; ty_entry := false; ty_name := None |}.
 Definition wit : wir :=
@@ -636,7 +636,7 @@ Definition wit : wir :=
      m_elements := empty;
      m_start := None; m_producers := []; m_customs := []; m_debug := []; m_name := None; m_config := default_config;
      m_code_section_offset := 0 |}.
-Definition wit' : wir := match gc wit with Ok m' => m' | _ => wit end.
+Definition wit' : wir := match gc_sweep wit with Ok m' => m' | _ => wit end.
 
 Lemma aget_single {A} (x : A) id v : aget {| items := [x]; dead := [] |} id = Some v -> id = 0%N /\ v = x.
 Proof.
@@ -666,7 +666,7 @@ Proof.
 Qed.
 
 Theorem gc_closed_refuted :
-  exists m m', closed m /\ gc m = Ok m' /\ ~ closed m' /\
+  exists m m', closed m /\ gc_sweep m = Ok m' /\ ~ closed m' /\
                (exists e, emitM m (fun _ => 0%N) [] = Ok e) /\ emitM m' (fun _ => 0%N) [] = Panic.
 Proof.
   exists wit, wit'. split; [exact wit_closed|]. split; [vm_compute; reflexivity|]. split; [|split].
@@ -1657,7 +1657,7 @@ Theorem parseM_no_func_offsets cf ver w s : parseM cf ver w = POk s -> no_func_o
 Proof. intros E. apply (parseM_closed_nfo cf ver w s E). Qed.
 
 (* ====================================================================================== *)
-(* Part 4: emission is total on closed modules, after parse, after parse + gc               *)
+(* Part 4: emission is total on closed modules, after parse, after parse + gc_sweep               *)
 (* ====================================================================================== *)
 
 (* the body-level premise of [emitM_total] *)
@@ -1676,14 +1676,14 @@ Corollary emit_total_after_parse cf ver w s ilen dw fs :
   exists e, emitM (ps_m s) ilen dw = Ok e.
 Proof. intros E. apply emit_total_closed. eapply parseM_closed; eauto. Qed.
 
-Corollary gc_closed_after_parse cf ver w s m : parseM cf ver w = POk s -> gc (ps_m s) = Ok m -> closed m /\ no_func_offsets m.
+Corollary gc_closed_after_parse cf ver w s m : parseM cf ver w = POk s -> gc_sweep (ps_m s) = Ok m -> closed m /\ no_func_offsets m.
 Proof.
   intros E Hg. destruct (parseM_closed_nfo _ _ _ _ E) as [C NF].
   split; [eapply gc_closed_partial; eauto|eapply gc_no_func_offsets; eauto].
 Qed.
 
 Corollary emit_total_after_gc cf ver w s m ilen dw fs :
-  parseM cf ver w = POk s -> gc (ps_m s) = Ok m ->
+  parseM cf ver w = POk s -> gc_sweep (ps_m s) = Ok m ->
   used_local_functions m = Ok fs -> code_names_ok m fs ilen ->
   exists e, emitM m ilen dw = Ok e.
 Proof. intros E Hg. apply emit_total_closed. eapply gc_closed_after_parse; eauto. Qed.
@@ -1750,7 +1750,7 @@ Proof.
   eapply emit_names_closed; eauto. exact (emit_code_x _ _ _ _ _ _ Ec).
 Qed.
 
-(* ---------------------------------------------------------------- [types_named_ok] after parse, after gc *)
+(* ---------------------------------------------------------------- [types_named_ok] after parse, after gc_sweep *)
 Lemma types_get_aget m id : types_get m id = aget (arena (m_types m)) id.
 Proof. reflexivity. Qed.
 
@@ -1905,7 +1905,7 @@ Proof.
   intros p Hp. apply (H p). exact Hp.
 Qed.
 
-(* gc keeps the values of the surviving types *)
+(* gc_sweep keeps the values of the surviving types *)
 Lemma ty_fold_old keep (L : list (nat * mtype)) : forall s0 s',
   fold_left (ty_step keep) L (Ok s0) = Ok s' ->
   forall id t, aset_index s' id = Some t -> aset_index s0 id = Some t.
@@ -1922,7 +1922,7 @@ Proof.
     + exfalso. revert H. apply ty_fold_notok. discriminate.
 Qed.
 
-Lemma gc_types_old m m' id t : gc m = Ok m' -> types_get m' id = Some t -> types_get m id = Some t.
+Lemma gc_types_old m m' id t : gc_sweep m = Ok m' -> types_get m' id = Some t -> types_get m id = Some t.
 Proof.
   intros H. destruct (gc_inv' m m' H) as (u & ia & ta & ga & ma & da & ea & tya & fa & Hu & Ei & Et & Eg & Em & Ed & Ee & Ety & Ef & ->).
   unfold types_get. wcbn. exact (ty_fold_old _ _ _ _ Ety (N.to_nat id) t).
@@ -1934,7 +1934,7 @@ Proof.
   split; [reflexivity|]. apply G.iter_live'. exact H.
 Qed.
 
-Theorem gc_types_named_ok m m' : types_named_ok m -> gc m = Ok m' -> types_named_ok m'.
+Theorem gc_types_named_ok m m' : types_named_ok m -> gc_sweep m = Ok m' -> types_named_ok m'.
 Proof.
   intros H Hg [id t] Hp Hn. cbn [snd] in *. apply live_types_get in Hp. apply (gc_types_old _ _ _ _ Hg) in Hp.
   apply types_get_live in Hp. exact (H _ Hp Hn).
@@ -1953,7 +1953,7 @@ Proof.
 Qed.
 
 Corollary emit_total_after_gc_bodies cf ver w s m ilen dw fs :
-  parseM cf ver w = POk s -> gc (ps_m s) = Ok m -> used_local_functions m = Ok fs ->
+  parseM cf ver w = POk s -> gc_sweep (ps_m s) = Ok m -> used_local_functions m = Ok fs ->
   (forall x, final_maps m fs x -> forall id lf, In (id, lf) fs -> body_ok m x ilen lf) ->
   exists e, emitM m ilen dw = Ok e.
 Proof.
